@@ -129,10 +129,14 @@ template <FeatureTag NFT_, typename TC_, typename TRO_ HFSM2_IF_UTILITY_THEORY(,
 HFSM2_CONSTEXPR(14)
 bool
 RV_<G_<NFT_, TC_, Manual, TRO_ HFSM2_IF_UTILITY_THEORY(, TR_, TU_, TG_), NSL_ HFSM2_IF_PLANS(, NTC_), TP_>, TA_>::replayEnter(const Transition* const transitions,
-																															  const Short count) noexcept
+																															  const Short count_) noexcept
 {
 	HFSM2_ASSERT(!_core.registry.isActive());
 	HFSM2_ASSERT(_core.requests.count() == 0);
+
+	// a recorded history never exceeds what previousTransitions() can hold: excess entries are rejected
+	const Short count = count_ < TransitionSets::CAPACITY ?
+		count_ : static_cast<Short>(TransitionSets::CAPACITY);
 
 	_core.transitionTargets.clear();
 	HFSM2_ASSERT(_core.previousTransitions.count() == 0);
